@@ -284,8 +284,9 @@ def gen_scalar_call(src, world, cname, attr, inplace, bad_rate):
         return {"t": "call", "m": f"update_{attr}", "a": args, "k": k}
     if m in (4, 5):  # transform_<a>
         args = [gen_fn(src, T)]
-        if T[0] == "spec" and src.chance(1, 2):
-            if src.chance(1, 2):
+        returns_existing = args[0][1] == "existing"  # a transform handing back an object the receiver already holds
+        if T[0] == "spec" and (src.chance(1, 2) or returns_existing):
+            if not returns_existing and src.chance(1, 2):
                 args = []  # attribute transforms only (else: whole-value transform AND attribute transforms)
             inner = "a" if T[1] == "U" else "v"
             k[inner] = gen_fn(src, ["int"])
@@ -442,7 +443,8 @@ def gen_op(src, world, cname=None, inplace=None, bad_rate=(1, 4), allow=("scalar
     kind = src.pick(kinds)
     src.bad_drawn = False
     if kind == "scalar":
-        name = src.pick(list(attrs))
+        # nested spec-class values have the richest scalar helpers (constructor, keyword merging, attribute transforms): weight x3
+        name = src.pick(list(attrs) + 2 * [n for n, a in attrs.items() if a["type"][0] == "spec"])
         op = gen_scalar_call(src, world, cname, name, inplace, bad_rate)
         if src.bad_drawn:
             op["bad"] = "elem" if is_collection(attrs[name]["type"]) or attrs[name]["type"][0] in ("spec", "tuple", "vtuple") else "top"
